@@ -25,6 +25,8 @@ CLAIMS = {
               'BEFORE it is opened; every record of every chunk is applied through the same RaftLogStateMachine::apply contract the live path uses, with chunk id and segment (offsets[i], offsets[i+1]-offsets[i]); '
               'the healthy newest chunk is reused for appends iff it was not truncated, otherwise a fresh chunk is created exactly at the previous end with State(current state) as head; '
               'the returned store satisfies the invariants every write operation needs and preserves (Inv_Cache, I7, wal_safe, Inv_WAL: loaded chunks keyed by start, non-empty, abutting). '
+              'Live-side premises, checked under this property as well: RaftLog::append_and_apply journals a record only if the reference accepts it (rejected => nothing changed, nothing buffered) and buffers exactly enc(rec) for an accepted one; '
+              'the flush worker batches every Write it receives and writes the batch to the newest file in request order. '
               'Lemma over the contracts (unit U11, no code): for a journal older ++ [State(h)] ++ newer whose chunk-head record carries the state at rotation (h == fold(init, older), proved under C11), replaying from that head from ANY starting state yields fold(init, whole journal) — so deleting older chunks and restarting reproduces the live state.  What is NOT decided: the journal-on-disk == journal-written link itself (C04+C11+file-system semantics) and the completeness half of the codec.'),
         note=TRUST + ' ENVIRONMENT ASSUMPTION inside the replay loop (an explicit `assume`, listed in the evidence): each replayed record was accepted when it was journaled and magnitudes hold. load_chunk_ids, RaftLogWAL::new (thread spawn) are assumed contracts.',
         technique='Verus loop invariants over the chunk-loading loop + shared apply contract, on extracted code',
